@@ -482,21 +482,29 @@ def oracle(c, impl_steps, state=None):
     if cnt != last["cnt"]:
         bad.append(("oracle:cnt", "stored counts %s differ from the number of attributed samples per bin %s" % (last["cnt"], cnt)))
     elif not all(close(a, b) for a, b in zip(sm, last["sum"])):
-        zt = zero_total_steps(c, impl_steps)
-        vz = value_zero_steps(c, impl_steps)
-        sig = "sample:subtractAppliedForce-zero-total-force" if zt else ("sample:force-dropped-at-value-zero" if vz else "oracle:sum")
-        k = [i for i, (a, b) in enumerate(zip(sm, last["sum"])) if not close(a, b)][0]
-        hj = c["hideJ"] and c["same"] and any(kind(v) == "dist" and not v["sub"] for v in c["vars"]) and c.get("T", 0.0) != 0.0
-        if not zt and not vz and hj:
-            sig = "sample:hideJacobian-same-step-adds-jacobian"
-        # hideJacobian, lagged forces, and a distance variable to which no bias applies a force (applyBias off, no
-        # restraint): the compensating force -fj never reaches the atoms but fj is added to the measured force
-        hn = (c["hideJ"] and not c["same"] and not c["apply"] and c.get("T", 0.0) != 0.0
-              and any(kind(v) == "dist" and v["hk"] is None for v in c["vars"]))
-        if not zt and not vz and hn:
-            sig = "sample:hideJacobian-without-applied-force"
+        badk = [i for i, (a, b) in enumerate(zip(sm, last["sum"])) if not close(a, b)]
+        dbad = set(i % nd for i in badk)          # the variables whose sums are wrong
+        zt = [h for h in zero_total_steps(c, impl_steps) if h[1] in dbad]
+        vz = [h for h in value_zero_steps(c, impl_steps) if h[1] in dbad]
+        jvar = [d for d in dbad if kind(c["vars"][d]) == "dist" and c.get("T", 0.0) != 0.0 and c["hideJ"]]
+        # hideJacobian with same-step forces: fj added although no compensating force is in the total force
+        hj = [d for d in jvar if c["same"] and not c["vars"][d]["sub"]]
+        # hideJacobian, lagged forces, no bias applies a force to the variable (applyBias off, no restraint): the
+        # compensating force -fj never reaches the atoms but fj is added to / f_old subtracted from the measured force
+        hn = [d for d in jvar if not c["same"] and not c["apply"] and c["vars"][d]["hk"] is None]
+        if zt:
+            sig, why = "sample:subtractAppliedForce-zero-total-force", " (measured total force exactly zero at (step,variable) %s)" % zt[:3]
+        elif vz:
+            sig, why = "sample:force-dropped-at-value-zero", " (value exactly 0 at (step,variable) %s)" % vz[:3]
+        elif hj and len(hj) == len(dbad):
+            sig, why = "sample:hideJacobian-same-step-adds-jacobian", " (hideJacobian, same-step forces, distance variable(s) %s)" % hj
+        elif hn and len(hn) == len(dbad):
+            sig, why = "sample:hideJacobian-without-applied-force", " (hideJacobian, lagged forces, no bias applies a force to distance variable(s) %s)" % hn
+        else:
+            sig, why = "oracle:sum", ""
+        k = badk[0]
         bad.append((sig, "stored gradient sums differ from minus the summed attributed samples: element %d is %s, expected %s%s"
-                    % (k, last["sum"][k], float(sm[k]), (" (measured total force exactly zero at (step,variable) %s)" % zt[:3]) if zt else ((" (value exactly 0 at (step,variable) %s)" % vz[:3]) if vz else ""))))
+                    % (k, last["sum"][k], float(sm[k]), why)))
     else:
         # the property as worded: the stored gradient (value_output, what the state file contains) is minus the
         # arithmetic mean of the attributed samples, 0 in an empty bin -- through the accessor and the saved state
